@@ -201,8 +201,8 @@ def shrink_prefix(ops, bad_op):
     return ops[start:bad_op + 1]
 
 
-def examine(name, ops, tier, seed, res):
-    a, b = run_both(ops)
+def examine(name, ops, tier, seed, res, pre=None):
+    a, b = pre if pre is not None else run_both(ops)
     al, bl = [x.rstrip() for x in a.stdout.splitlines()], [x.rstrip() for x in b.stdout.splitlines()]
     res.evaluations += 1
     msg = oracle(ops, al)
@@ -244,8 +244,12 @@ def run(tier, seed, proof):
     if not proof["driver_ok"]:
         return res
     nops = 0
-    for name, ops, tag in gen_cases(tier, seed):
-        examine(name, ops, tier, seed, res)
+    import concurrent.futures
+    cases = list(gen_cases(tier, seed))
+    ex = concurrent.futures.ThreadPoolExecutor(max_workers=common.NCPU)
+    outs = ex.map(lambda c: run_both(c[1]), cases)
+    for (name, ops, tag), pre in zip(cases, outs):
+        examine(name, ops, tier, seed, res, pre)
         res.nontrivial.add(tag)
         nops += len(ops)
         if len(res.samples) < 3 and name.startswith("rand"):
